@@ -365,6 +365,8 @@ class QCow2Snapshot:
     def open(self) -> QCow2:
         disk = copy.copy(self.qcow2)
         disk.l1_table = self.l1_table
+        # The copy must not serve the data the active image has buffered
+        disk._buf = None
         disk.seek(0)
         return disk
 
